@@ -461,6 +461,13 @@ int main(int argc, char **argv) {
     check_roundtrip(o, g, out, nullptr, gt);
     for (size_t k = 0; k < ids.size(); k++) { const PointAttribute *kf = out.keyframes(ids[k]); if (!kf || kf->num_components() != ncs[k]) o.fail("C20 track not retrievable under its id: " + gt); }
     if (!out.timestamps() || out.timestamps()->num_components() != 1) o.fail("C20 timestamps lost: " + gt);
+    // the ids the API handed out are the keys of the per-attribute options: a track (or the timestamps, id 0) for which no
+    // quantization was requested UNDER ITS OWN ID must come back bit-exact, whatever order the animation was built in
+    auto exact = [&](const PointAttribute *pa, const std::vector<float> &want, int nc) { if (!pa || (int)pa->num_components() != nc || pa->data_type() != DT_FLOAT32) return false;
+      std::vector<float> v(nc); for (int f = 0; f < frames; f++) { pa->GetMappedValue(PointIndex(f), v.data()); if (memcmp(v.data(), &want[(size_t)f * nc], sizeof(float) * nc) != 0) return false; } return true; };
+    if ((int)qs.size() > 0 && qs[0] == 0 && !exact(out.timestamps(), ts, 1)) o.fail("C20 timestamps (no quantization requested for id 0) are not bit-exact: " + gt + (ts_first ? " timestamps-first" : " keyframes-first"));
+    for (size_t k = 0; k < ids.size(); k++) if (ids[k] >= 0 && ids[k] < (int)qs.size() && qs[ids[k]] == 0 && !exact(out.keyframes(ids[k]), data[k], ncs[k]))
+      o.fail("C20 track " + S(ids[k]) + " (no quantization requested for its id) is not bit-exact: " + gt + (ts_first ? " timestamps-first" : " keyframes-first"));
   }
   fprintf(stderr, "h_seq: %ld cases (%ld encode failures, %ld decode cases), %ld direct failures\n", o.cases, enc_fail, dec_cases, o.fails);
   return 0;
